@@ -165,6 +165,7 @@ func renderSeq(ts []tmpl, mode string) ([][]byte, bool) {
 type config struct {
 	backend string
 	shadow  bool
+	level   int
 }
 
 // ---------- witness ----------
@@ -345,13 +346,14 @@ type caseReport struct {
 }
 
 type runner struct {
-	c        *vlib.Ctx
-	guardMS  int
-	mu       sync.Mutex
-	reports  map[int]*caseReport
-	crashOK  map[string]bool // crash signatures confirmed in isolation
-	crashes  int64
-	restarts int64
+	c         *vlib.Ctx
+	guardMS   int
+	mu        sync.Mutex
+	reports   map[int]*caseReport
+	crashOK   map[string]bool // crash signatures confirmed in isolation
+	timeoutOK map[string]int  // confirmed missing terminal replies per request kind
+	crashes   int64
+	restarts  int64
 }
 
 func (r *runner) watchdog(guardMS int) time.Duration {
@@ -362,6 +364,22 @@ func (r *runner) watchdog(guardMS int) time.Duration {
 func (r *runner) runAlone(j Job, guardMS int) childEnd {
 	j.GuardMS = guardMS
 	return runChild([]Job{j}, r.watchdog(guardMS))
+}
+
+// A missing terminal reply is confirmed in isolation (3 runs, 5x guard) for
+// the first three cases per request kind; after three confirmed ones further
+// cases of the kind are taken as they are (same signature, saves hours when a
+// defect makes thousands of cases hang).
+func (r *runner) needConfirm(kind string) bool {
+	r.mu.Lock()
+	defer r.mu.Unlock()
+	return r.timeoutOK[kind] < 3
+}
+
+func (r *runner) confirmed(kind string) {
+	r.mu.Lock()
+	r.timeoutOK[kind]++
+	r.mu.Unlock()
 }
 
 func hasTimeout(res *Result) (int, bool) {
@@ -459,9 +477,8 @@ func (r *runner) resultReport(j Job, res *Result) *caseReport {
 		}
 		return rep
 	}
-	if _, to := hasTimeout(res); to {
+	if idx0, to := hasTimeout(res); to && r.needConfirm(classify(res.Steps[idx0].Msg).Kind) {
 		// candidate "no reply": confirm 3x alone with a longer guard
-		idx0, _ := hasTimeout(res)
 		var clean *Result
 		for i := 0; i < 3; i++ {
 			e2 := r.runAlone(j, r.guardMS*5)
@@ -482,6 +499,8 @@ func (r *runner) resultReport(j Job, res *Result) *caseReport {
 		if clean != nil {
 			res = clean
 			r.c.OutcomeN("slow-case-reconfirmed", 1)
+		} else {
+			r.confirmed(classify(res.Steps[idx0].Msg).Kind)
 		}
 	}
 	jd := judge(res)
@@ -533,12 +552,23 @@ func (r *runner) runChunk(jobs []Job) {
 	}
 }
 
+// Levels of a configuration: full = everything of the tier; light = depth-1
+// grammar and pairs over the small sequence alphabet; mini = single messages
+// of the sequence alphabet and pairs over the small alphabet with distinct IDs
+// (badger takes ~7 ms per fresh database, the others well below 1 ms).
+const (
+	full = iota
+	light
+	mini
+)
+
 func buildJobs(c *vlib.Ctx) (jobs []Job, counts map[string]int) {
 	counts = map[string]int{}
 	thorough := !c.Quick()
-	configs := []config{{"hashmap", false}, {"bbolt", false}, {"fstree", false}}
+	configs := []config{{"hashmap", false, full}, {"bbolt", false, full}, {"fstree", false, full}, {"badger", false, mini}}
 	if thorough {
-		configs = append(configs, config{"hashmap", true}, config{"bbolt", true})
+		configs = []config{{"hashmap", false, full}, {"bbolt", false, full}, {"fstree", false, full}, {"badger", false, light},
+			{"hashmap", true, full}, {"bbolt", true, full}}
 	}
 	add := func(cf config, msgs [][]byte, class string) {
 		jobs = append(jobs, Job{Backend: cf.backend, Shadow: cf.shadow, Msgs: msgs})
@@ -547,13 +577,13 @@ func buildJobs(c *vlib.Ctx) (jobs []Job, counts map[string]int) {
 	// byte strings
 	small := []byte("|1aJ{:}\"cgqsiudnetly \x00\xff\x80\n\\(")
 	for _, cf := range configs {
-		if cf.shadow {
+		if cf.shadow || cf.level == mini {
 			continue
 		}
 		for l := 0; l <= 2; l++ {
 			jobs = append(jobs, Job{Backend: cf.backend, Bulk: &Bulk{Len: l, First: -1}})
 		}
-		if thorough {
+		if thorough && cf.level == full {
 			for f := 0; f < 256; f++ {
 				jobs = append(jobs, Job{Backend: cf.backend, Bulk: &Bulk{Len: 3, First: f}})
 			}
@@ -563,7 +593,19 @@ func buildJobs(c *vlib.Ctx) (jobs []Job, counts map[string]int) {
 	}
 	// depth 1: grammar
 	rests := d1Rests()
+	alpha := seqAlphabet(true)
+	smallAlpha := seqAlphabet(false)
 	for _, cf := range configs {
+		if cf.level == mini {
+			for _, a := range alpha {
+				id := "1"
+				if a.cmd == "cancel-other" {
+					id = "9"
+				}
+				add(cf, [][]byte{a.render(id)}, "depth1")
+			}
+			continue
+		}
 		for _, id := range d1OpIDs {
 			for _, cmd := range d1Cmds {
 				add(cf, [][]byte{[]byte(id + "|" + cmd)}, "depth1")
@@ -574,11 +616,17 @@ func buildJobs(c *vlib.Ctx) (jobs []Job, counts map[string]int) {
 		}
 	}
 	// depth 2
-	alpha := seqAlphabet(true)
 	for _, cf := range configs {
-		for _, a := range alpha {
-			for _, b := range alpha {
-				for _, mode := range []string{"D", "S", "E"} {
+		al, modes := alpha, []string{"D", "S", "E"}
+		if cf.level != full {
+			al = smallAlpha
+		}
+		if cf.level == mini {
+			modes = []string{"D"}
+		}
+		for _, a := range al {
+			for _, b := range al {
+				for _, mode := range modes {
 					if msgs, ok := renderSeq([]tmpl{a, b}, mode); ok {
 						add(cf, msgs, "depth2")
 					}
@@ -589,7 +637,7 @@ func buildJobs(c *vlib.Ctx) (jobs []Job, counts map[string]int) {
 	// depth 2, wide: a message of the sequence alphabet followed by every message of the depth-1 grammar
 	if thorough {
 		for _, cf := range configs {
-			if cf.shadow {
+			if cf.shadow || cf.level != full {
 				continue
 			}
 			for _, a := range alpha {
@@ -610,7 +658,7 @@ func buildJobs(c *vlib.Ctx) (jobs []Job, counts map[string]int) {
 	if thorough {
 		core := coreAlphabet()
 		for _, cf := range configs {
-			if cf.shadow {
+			if cf.shadow || cf.level != full {
 				continue
 			}
 			for _, a := range core {
@@ -634,8 +682,7 @@ func buildJobs(c *vlib.Ctx) (jobs []Job, counts map[string]int) {
 
 func run(c *vlib.Ctx) {
 	guardMS := vlib.Pick(c, 3000, 4000)
-	r := &runner{c: c, guardMS: guardMS, reports: map[int]*caseReport{}, crashOK: map[string]bool{}}
-	c.SetBudget(vlib.Pick(c, 6*time.Minute, 35*time.Minute))
+	r := &runner{c: c, guardMS: guardMS, reports: map[int]*caseReport{}, crashOK: map[string]bool{}, timeoutOK: map[string]int{}}
 
 	if c.Replay != "" {
 		replay(c, r)
@@ -650,13 +697,13 @@ func run(c *vlib.Ctx) {
 	c.Assume("a subscription notification is required when the written key has the query's prefix and the query has no condition or the new content satisfies 'a > 0'; it is forbidden when prefix or database differ or the known new content does not satisfy the condition; upd and new are not distinguished (the implementation decides by second-granular timestamps)")
 	c.Assume("reusing the operation ID of a still-running sub/qsub for another request is not generated (not a well-formed use of the protocol)")
 	c.Assume("the interleaving clause (concurrent requests, cancels racing queries, writes racing subscriptions) is left to engine S; here every message is run to its terminal reply before the next is sent")
-	c.Assume("backends: hashmap, bbolt, fstree (badger and sinkhole are not exercised)")
+	c.Assume("backends: hashmap, bbolt, fstree, badger (sinkhole and injected storages are not exercised)")
 
 	jobs, counts := buildJobs(c)
 	for i := range jobs {
 		jobs[i].GuardMS = guardMS
 	}
-	chunkSize := 150
+	chunkSize := 60
 	var chunks [][]Job
 	// interleave configurations inside chunks so that slow backends spread over workers
 	for i := 0; i < len(jobs); i += chunkSize {
@@ -756,6 +803,7 @@ func run(c *vlib.Ctx) {
 	c.Extra("child_process_deaths", r.crashes)
 	c.Extra("cases_with_goroutines_left_after_cleanup", unsettled)
 	c.Extra("seq_alphabet_size", int64(len(seqAlphabet(true))))
+	c.Extra("small_seq_alphabet_size", int64(len(seqAlphabet(false))))
 	c.Extra("core_alphabet_size_depth3", int64(len(coreAlphabet())))
 	c.Extra("depth1_messages_per_config", int64(len(d1OpIDs)*len(d1Cmds)*(len(d1Rests())+1)))
 	if skipped > 0 {
